@@ -663,8 +663,17 @@ def gen_layout(rng, quickish=True):
         i = rng.randrange(len(defs))
         lab, val = defs[i]
         pre, _, name = lab.partition("_")
-        m = rng.randrange(14)
-        if m == 0:      # same name, other case
+        m = rng.randrange(17)
+        bank = re.fullmatch(r"(?i)(f?)(par_)(0*)([0-9]+)", val)
+        if m >= 14 and bank:
+            # same name re-defined in the *other register bank with the same index*: Par_n <-> FPar_n
+            # (ParDesc(n) == FParDesc(n) as plain tuples, so only a type-aware comparison rejects this)
+            other = ("" if bank.group(1) else rcase(rng, "F")) + bank.group(2) + rng.choice(["", bank.group(3), "0"]) + bank.group(4)
+            lab2 = lab if m != 16 else pre + "_" + (name.swapcase() if name.swapcase() != name else name + "X")
+            new = (lab2 if rng.random() < 0.7 else rcase(rng, pre) + "_" + lab2.partition("_")[2], other)
+        elif m >= 14:
+            new = (lab, val)
+        elif m == 0:      # same name, other case
             new = (pre + "_" + (name.swapcase() if name.swapcase() != name else name + "X"), val)
         elif m >= 12:   # same name in another case bound to another (free) register
             other = re.sub(r"[0-9]+(?=\]?$)", lambda mm: str(int(mm.group(0)) + rng.choice([10, 11, 20])), val)
@@ -1208,6 +1217,17 @@ def corpus_programs():
            "top": "prog/main.bas", "incdir": "prog", "relative": True, "types": t, "cyc": None, "n_ops": 3, "ops_seed": 2}
 
 
+def corpus_programs_2():
+    t = {str(d): ["long", True] for d in range(1, 12)}
+    # same name bound to Par_7 in the main file and to FPar_7 in an include file
+    yield {"files": {"prog/main.bas": "#Include .\\defs.inc\n#Define PAR_rate Par_7\n",
+                     "prog/defs.inc": "' include\n\n#Define PAR_rate FPar_7\n"},
+           "top": "prog/main.bas", "incdir": "prog", "relative": False, "types": t, "cyc": None, "n_ops": 0}
+    yield {"files": {"main.bas": "#Define PAR_rate FPar_7 ' float\r\n#Include sub\\d.inc\r\n",
+                     "sub/d.inc": "#define par_rate par_7\n"},
+           "top": "main.bas", "incdir": "", "relative": True, "types": t, "cyc": None, "n_ops": 0}
+
+
 def corpus_layouts():
     t = {str(d): (["long", True] if d % 2 == 0 else ["float64", False]) for d in range(1, 12)}
     big = "1" * 4301
@@ -1215,6 +1235,12 @@ def corpus_layouts():
     yield {"defs": [["DATA_big", "Data_" + "0" * 4300 + "7"]], "types": t, "n_ops": 0, "ops_seed": 0}
     yield {"defs": [["DATA_a", "Data_3"], ["PAR_e", "Data_a[" + big + "]"]], "types": t, "n_ops": 0, "ops_seed": 0}
     yield {"defs": [["DATA_ok", "Data_" + "0" * 4299 + "7"], ["PAR_z", "Par_" + "0" * 4299 + "5"]], "types": t, "n_ops": 2, "ops_seed": 0}
+    # one name in both register banks with the same index (ParDesc(3) == FParDesc(3) as tuples): must be rejected
+    yield {"defs": [["PAR_gain", "Par_3"], ["PAR_other", "Par_1"], ["PAR_gain", "FPar_3"]], "types": t, "n_ops": 0, "ops_seed": 0}
+    yield {"defs": [["PAR_offset", "FPar_12"], ["PAR_other", "Par_1"], ["par_offset", "PAR_012"]], "types": t, "n_ops": 0, "ops_seed": 0}
+    yield {"defs": [["PAR_gain", "Par_3"], ["PAR_Gain", "FPar_3"]], "types": t, "n_ops": 0, "ops_seed": 0}
+    # the legitimate neighbour: two names, same index, different banks
+    yield {"defs": [["PAR_gain", "Par_3"], ["PAR_fgain", "FPar_3"], ["PAR_gain", "par_03"]], "types": t, "n_ops": 4, "ops_seed": 5}
     yield {"defs": [["DATA_arr", "Data_2"]] + [[f"PAR_e{i}", f"Data_arr[{i}]"] for i in (1, 2, 3, 5, 6, 8)] +
                    [["PAR_p1", "Par_1"], ["PAR_p2", "Par_2"], ["PAR_f1", "FPar_1"]], "types": t, "n_ops": 8, "ops_seed": 3}
     yield {"defs": [["DATA_a", "Data_4"], ["DATA_b", "Data_5"]] + [[f"PAR_a{i}", f"Data_a[{i}]"] for i in (1, 2, 4)] +
@@ -1366,7 +1392,7 @@ class C20(Prop):
         with tempfile.TemporaryDirectory(prefix="c20_") as tmp:
             tmp = Path(os.path.realpath(tmp))
             # --- fixed corpus
-            for i, sc in enumerate(corpus_programs()):
+            for i, sc in enumerate(list(corpus_programs()) + list(corpus_programs_2())):
                 sc = dict(sc)
                 lines, outs, fails, _ = run_program_scenario(sc, tmp / f"c{i}", res.count)
                 add("E", {"kind": "program", "scenario": sc}, lines, outs)
